@@ -246,9 +246,11 @@ def run(mod, tier, seed, workers=None, replay_path=None):
     cov = {
         'states': states,
         'transitions': transitions,
-        'traces_validated_against_impl': int(c.get('traces_validated', c.get('executions', c.get('evaluations', c.get('items', 0))))),
+        # every explored execution / state runs the implementation itself (there is no separate model), so all of them count;
+        # 'traces_validated' (in counters) is the number of REAL-seed runs replayed through the substitute generator
+        'traces_validated_against_impl': int(c.get('executions', c.get('evaluations', c.get('items', 0)))),
         'samples': total.samples or [{'note': 'no sample recorded'}],
-        'evaluations': int(c.get('evaluations', c.get('items', 0))),
+        'evaluations': int(c.get('evaluations', c.get('executions', c.get('items', 0)))),
         'distinct_nontrivial': len(total.nontrivial),
         'distinct_outcomes': len(total.outcomes),
         'rule': mod.RULE,
